@@ -104,7 +104,10 @@ def run_one(ctx, ccube, specs, mode):
 def run(ctx):
     thorough = ctx.tier == "thorough"
     ctx.rule = ("random: 1-4 one-axis iindex dimensions (from_array or constructor with shuffled dict order), N in 0..8, "
-                "1-4 categories from pools incl. 255/256/65535/65536, common most-frequent/rare/absent, observed through "
+                "1-4 categories from pools incl. 255/256/65535/65536, common most-frequent/rare/absent, the FORM of the inputs varied "
+                "with the content unchanged (from_array from every integer dtype holding the values in C / strided / negative-stride / "
+                "read-only layouts or a Python list; constructor with contiguous, column-view or read-only uint32 row-id arrays; common "
+                "as Python int or NumPy integer scalar of any dtype holding it, dict-key coordinates as Python ints or NumPy scalars), observed through "
                 "interactions(), walk(f) and walk([f,g]) (every case through all three, which must deliver identical sequences; "
                 "the literal compared in Coq rotates over them); lopsided: N in 30..120, 2-4 dims of extent 2-4 with one frequent category "
                 "(60-90 % of the rows) and rare categories of 1-3 rows whose last row usually lies in the next dimension's frequent "
@@ -125,12 +128,16 @@ def run(ctx):
     from catii import ccube
 
     cases, metas, found = [], [], []
+    form_dist = collections.Counter()
     modes = ["interactions", "walk1", "walk2"]
 
     def add(specs, mode):
         lit, obs, bad = run_one(ctx, ccube, specs, mode)
         cases.append(lit)
         metas.append((specs, mode))
+        for sp in specs:
+            for t in cubelib.form_tags(sp) or ["ordinary (exhaustive stream)"]:
+                form_dist[t] += 1
         if obs:
             ctx.nontrivial.add((lit, mode))
         if bad:
@@ -154,6 +161,7 @@ def run(ctx):
             add(specs, "interactions")
             n_exh += 1
     ctx.coverage["random_cases"] = n_random
+    ctx.coverage["input_forms"] = dict(sorted(form_dist.items()))
     ctx.coverage["lopsided_cases"] = len(range(0, n_random, every))
     ctx.coverage["exhaustive_cases"] = n_exh
     ctx.coverage["exhaustive_subspace"] = ("all 4^3 dictionaries per dimension over 3 rows x 3 uncommon categories, %s dimensions "
